@@ -324,6 +324,9 @@ func minimise(p *prepared, rf *replayFile, sig string, attempts int, deadline ti
 		}
 	}
 	rf.Decisions = dec
+	// e. shrink the query strings; f. drop empty tasks and unused shared expressions
+	shrinkQueries(rf, try, deadline)
+	compact(rf, try)
 	return st
 }
 
